@@ -311,6 +311,100 @@ fn check_duplicate_across_segments(ctx: &Ctx, b: &Base, rng: &mut Rng) {
     }
 }
 
+/// The single faulty line sits in the body of a macro (behind blank and comment-only lines, with and
+/// without parameters) that is called once at the end of the program: the line at fault is still the
+/// line it is written on. Likewise `.message`/`.warning` lines of a body carry their own line numbers.
+fn check_in_macro_body(ctx: &Ctx, b: &Base, rng: &mut Rng) {
+    let base_src = ir::print_canonical(&b.nodes);
+    let mut base_lines: Vec<String> = base_src.lines().map(|l| l.to_string()).collect();
+    let first = base_lines.remove(0); // the leading comment stays line 1
+    let filler = |rng: &mut Rng, with_args: bool| -> String {
+        match rng.below(5) {
+            0 => String::new(),
+            1 => "   ".to_string(),
+            2 => "; a note inside the body".to_string(),
+            3 if with_args => "\tldi @0, @1".to_string(),
+            _ => "\tnop".to_string(),
+        }
+    };
+    let singles: Vec<(&'static str, String)> = faults(&[], rng)
+        .into_iter()
+        .filter(|(_, ins)| ins.len() == 1 && matches!(ins[0], Node::Raw(_) | Node::Message(..)))
+        .map(|(k, ins)| (k, ir::print_canonical(&ins).trim_end_matches('\n').to_string()))
+        .collect();
+    for (kind, fault_text) in singles {
+        let with_args = rng.chance(1, 2);
+        let mut lines = vec![first.clone(), ".macro c15_body".to_string()];
+        for _ in 0..rng.usize(6) {
+            lines.push(filler(rng, with_args));
+        }
+        lines.push(fault_text.clone());
+        let p = lines.len();
+        for _ in 0..rng.usize(4) {
+            lines.push(filler(rng, with_args));
+        }
+        lines.push(".endm".to_string());
+        lines.extend(base_lines.iter().cloned());
+        lines.push(if with_args { "\tc15_body r16, 1".to_string() } else { "\tc15_body".to_string() });
+        let call_line = lines.len();
+        let src = lines.join("\n") + "\n";
+        let out = fw::build_str(&src);
+        ctx.eval(1);
+        ctx.count("fault-in-macro-body", 1);
+        let replay = json!({"source": src, "fault_kind": kind, "fault_line": p, "context": if with_args { "macro-body-with-parameters" } else { "macro-body" }, "call_line": call_line, "faulty_text": fault_text, "observed": out.brief()});
+        match &out {
+            Outcome::Ok(_) => ctx.violation(format!("diag/{}/in-macro-body/build-succeeded", kind), format!("body line {} `{}` is at fault but the build succeeded", p, fault_text.trim()), replay),
+            Outcome::Panic(pn) => ctx.violation(format!("diag/{}/in-macro-body/panic", kind), fw::clip(pn, 120), replay),
+            Outcome::Err(e) => {
+                if !has_line_token(e, p) {
+                    ctx.violation(format!("diag/{}/in-macro-body/line-not-named", kind), format!("body line {} `{}` is at fault (macro called in line {}) but the error does not name it: {}", p, fault_text.trim(), call_line, fw::clip(e, 160)), replay);
+                }
+            }
+        }
+    }
+    // messages of a body
+    let mut lines = vec![first.clone(), ".macro c15_talk".to_string()];
+    let mut expect: Vec<(usize, String, bool)> = vec![];
+    for k in 0..1 + rng.usize(4) {
+        for _ in 0..rng.usize(4) {
+            lines.push(filler(rng, false).replace("\tnop", ""));
+        }
+        let warn = rng.chance(1, 2);
+        let text = format!("body msg#{}", k);
+        lines.push(format!("{} \"{}\"", if warn { ".warning" } else { ".message" }, text));
+        expect.push((lines.len(), text, warn));
+    }
+    lines.push(".endm".to_string());
+    lines.extend(base_lines.iter().cloned());
+    lines.push("\tc15_talk".to_string());
+    let src = lines.join("\n") + "\n";
+    let out = fw::build_str(&src);
+    let base_out = fw::build_str(&base_src);
+    ctx.eval(1);
+    ctx.count("messages-in-macro-body", expect.len() as u64);
+    let replay = json!({"source": src, "base": base_src, "kind": "messages", "observed": out.brief()});
+    match (&out, &base_out) {
+        (Outcome::Ok(a), Outcome::Ok(bo)) => {
+            if a.code != bo.code || a.eeprom != bo.eeprom || a.ram_filling != bo.ram_filling {
+                ctx.violation("diag/messages/in-macro-body/images-changed", "a macro holding only .message/.warning lines changed the images", replay);
+            } else {
+                for (line, text, warn) in &expect {
+                    let hit = a.messages.iter().any(|m| {
+                        let lower = m.to_lowercase();
+                        m.contains(text.as_str()) && has_line_token(m, *line) && (if *warn { lower.contains("warn") } else { !lower.starts_with("warn") })
+                    });
+                    if !hit {
+                        ctx.violation("diag/messages/in-macro-body/line", format!("message `{}` written in body line {} is not reported with that line and kind: {:?}", text, line, a.messages), replay);
+                        break;
+                    }
+                }
+            }
+        }
+        (o, Outcome::Ok(_)) => ctx.violation("diag/messages/in-macro-body/build-failed", format!("program with a message-only macro does not build: {:?}", o.brief()), replay),
+        _ => ctx.inconclusive("base program invalid"),
+    }
+}
+
 fn line_of_label_second(nodes: &[Node], name: &str) -> Option<usize> {
     let mut seen = false;
     for (i, n) in nodes.iter().enumerate() {
@@ -418,14 +512,15 @@ pub fn run(ctx: &Ctx) -> i32 {
         }
         ctx.count("positions", poss.len() as u64);
         check_duplicate_across_segments(ctx, &b, &mut rng);
+        check_in_macro_body(ctx, &b, &mut rng);
         for _ in 0..3 {
             check_messages(ctx, &b, &mut rng);
         }
     });
     fw::finish(
         ctx,
-        "valid base programs of 5-40 lines (labels, instructions, data, .equ, .set, conditional blocks, three segments) x every insertion position on the assembling path (top level and inside the taken branch) x 23 kinds of single-line fault (syntax, unknown mnemonic/macro, register<->expression confusion, out-of-range immediate/register class/port/bit/displacement/relative target, operand count, undefined symbol in instruction/alias/data/.set/.if - also in an operand that cannot change the value (0 && x, 1 || x, 0 * x) -, duplicate label, out-of-range data, string in word directive, .error, division by zero): build must fail with an error containing the token `line: p`; per base 4 second definitions of an existing label appended behind a segment boundary (.org, .dseg, .eseg, .eseg then .cseg); plus 3 message placements per base (.message/.warning at top level and inside taken/untaken branches): images unchanged, message list equals the expected (text, line, order, kind distinguishable); distinct_nontrivial = distinct base programs; counters fault:* = faulty builds per kind",
-        &["every program starts with a comment line so p >= 2 (PEG errors embed `line: 1`); for a duplicate label either defining line is accepted", "macros are not used (body vs call attribution is not specified)"],
+        "valid base programs of 5-40 lines (labels, instructions, data, .equ, .set, conditional blocks, three segments) x every insertion position on the assembling path (top level and inside the taken branch) x 23 kinds of single-line fault (syntax, unknown mnemonic/macro, register<->expression confusion, out-of-range immediate/register class/port/bit/displacement/relative target, operand count, undefined symbol in instruction/alias/data/.set/.if - also in an operand that cannot change the value (0 && x, 1 || x, 0 * x) -, duplicate label, out-of-range data, string in word directive, .error, division by zero): build must fail with an error containing the token `line: p`; per base every single-line fault kind once more inside the body of a macro (behind blank and comment-only lines, with and without parameters) that is called once, and a macro holding only .message/.warning lines (each must be reported with the number of the body line it is written on); per base 4 second definitions of an existing label appended behind a segment boundary (.org, .dseg, .eseg, .eseg then .cseg); plus 3 message placements per base (.message/.warning at top level and inside taken/untaken branches): images unchanged, message list equals the expected (text, line, order, kind distinguishable); distinct_nontrivial = distinct base programs; counters fault:* = faulty builds per kind",
+        &["every program starts with a comment line so p >= 2 (PEG errors embed `line: 1`); for a duplicate label either defining line is accepted", "a fault inside a macro body is attributed to the body line it is written on (the line at fault); the order of body messages relative to top-level messages is not checked"],
     )
 }
 
